@@ -493,7 +493,7 @@ func runNative(prop, dir string, ld *Loaded, harnesses []string, vecs []nativeVe
 		vb, _ := json.Marshal(remaining)
 		os.WriteFile(vecPath, vb, 0o644)
 		os.Remove(outPath)
-		timeout := 120 + 11*len(remaining)
+		timeout := 120 + 31*len(remaining) // (each vector has a 10 s guard, 30 s when confirming)
 		cmd := exec.Command("timeout", strconv.Itoa(timeout), "go", "test", "-tags", "verif", "-vet=off", "-count=1", "-overlay", ovPath,
 			"-run", "^TestVerifReplay$", "-timeout", strconv.Itoa(timeout)+"s", "./"+dir)
 		cmd.Dir = repoDir
